@@ -25,6 +25,7 @@ pub fn dispatch(ctx: &Ctx, rest: &[String]) -> i32 {
         "C11" => c11::run(ctx),
         "C12" => c12::run(ctx),
         "C12-child" => c12::child(ctx, rest),
+        "C13" => c13::run(ctx),
         "C16" => c16::run(ctx),
         "C06-child" => c06::child(ctx, rest),
         other => {
@@ -185,6 +186,7 @@ pub mod c05;
 pub mod c06;
 pub mod c11;
 pub mod c12;
+pub mod c13;
 pub mod c16;
 pub mod hist;
 pub mod histcheck;
